@@ -97,11 +97,16 @@ func genC11(t *rapid.T) c11Scenario {
 		switch kind {
 		case "linear":
 			c.Sensor = sens()
-			c.StepsForm = rapid.SampledFrom([]string{"", "", "list", "list", "map", "single", "emptyList", "emptyMap"}).Draw(t, "stepsForm")
+			c.StepsForm = rapid.SampledFrom([]string{"", "", "list", "list", "map", "single", "emptyList", "emptyMap", "emptyListMinMax", "listMinMax"}).Draw(t, "stepsForm")
 			switch c.StepsForm {
-			case "":
+			case "", "emptyListMinMax", "listMinMax":
 				c.Min = rapid.IntRange(0, 60).Draw(t, "min")
 				c.Max = rapid.IntRange(c.Min+1, 100).Draw(t, "max")
+				if c.StepsForm == "listMinMax" {
+					for _, tp := range []int{c.Min, c.Max} {
+						c.Steps = append(c.Steps, stepPair{tp, float64(rapid.IntRange(0, 255).Draw(t, "speed"))})
+					}
+				}
 			case "list", "map", "single":
 				n := rapid.IntRange(2, 5).Draw(t, "nSteps")
 				if c.StepsForm == "single" {
@@ -476,6 +481,17 @@ func renderC11(sc *c11Scenario, dir string) string {
 				case "":
 					w.line(3, "%s: %d", w.key("min"), c.Min)
 					w.line(3, "%s: %d", w.key("max"), c.Max)
+				case "emptyListMinMax": // both forms at once: min/max plus an empty step list
+					w.line(3, "%s: %d", w.key("min"), c.Min)
+					w.line(3, "%s: %d", w.key("max"), c.Max)
+					w.line(3, "%s: []", w.key("steps"))
+				case "listMinMax": // both forms at once: min/max plus a step list
+					w.line(3, "%s: %d", w.key("min"), c.Min)
+					w.line(3, "%s: %d", w.key("max"), c.Max)
+					w.line(3, "%s:", w.key("steps"))
+					for _, s := range c.Steps {
+						w.line(4, "- %d: %v", s.Temp, s.Speed)
+					}
 				case "emptyList":
 					w.line(3, "%s: []", w.key("steps"))
 				case "emptyMap":
@@ -766,13 +782,13 @@ func runC11(t *testing.T, sc c11Scenario) verdict {
 	undocumented := false
 	emptyish := false
 	for _, c := range sc.Curves {
-		if c.StepsForm == "map" || c.StepsForm == "emptyList" || c.StepsForm == "emptyMap" {
+		if c.StepsForm == "map" || c.StepsForm == "emptyList" || c.StepsForm == "emptyMap" || c.StepsForm == "emptyListMinMax" || c.StepsForm == "listMinMax" {
 			undocumented = true
 		}
 		if len(c.Kinds) == 1 && c.Kinds[0] == "function" && len(c.Members) == 0 {
 			undocumented = true
 		}
-		if c.StepsForm == "emptyList" || c.StepsForm == "emptyMap" || c.StepsForm == "single" || (len(c.Kinds) == 1 && c.Kinds[0] == "function" && len(c.Members) <= 1) {
+		if c.StepsForm == "emptyList" || c.StepsForm == "emptyMap" || c.StepsForm == "emptyListMinMax" || c.StepsForm == "single" || (len(c.Kinds) == 1 && c.Kinds[0] == "function" && len(c.Members) <= 1) {
 			emptyish = true
 		}
 	}
